@@ -157,6 +157,11 @@ def shard_main(ctx):
         ctx.run_hypothesis([gen.charts(o, 'lua'), gen.event_histories()],
                            lambda ch, evs, engine=engine: check_case(ctx, ch, evs, engine), p["examples"] // 2,
                            lambda ch, evs, engine=engine: dict(case_repr(ch, evs), engine=engine), name=engine)
+        cp = gen.completion_profile()
+        cp.loose = True
+        ctx.run_hypothesis([gen.charts(cp, 'lua'), gen.event_histories(5, ['a', 'b'])],
+                           lambda ch, evs, engine=engine: check_case(ctx, ch, evs, engine), p["examples"] // 2,
+                           lambda ch, evs, engine=engine: dict(case_repr(ch, evs), engine=engine), name="completion-" + engine)
 
 
 def replay(ctx, case):
